@@ -296,9 +296,9 @@ func VerifyFunc(p *Prog, fn *ssa.Function, opt Options, so *SolveOpts) *FuncResu
 		// on lambda stores) gets a second chance on the other z3 before it is dropped
 		retried := 0
 		for _, o := range cands {
-			if o.Status != "discharged" && !disabled[o.Cand] && len(Solvers) > 1 && retried < 8 && (strings.Contains(o.Cand, ":keeps-prefix") || strings.Contains(o.Cand, ":own")) {
+			if o.Status != "discharged" && !disabled[o.Cand] && len(Solvers) > 1 && retried < 4 && (strings.Contains(o.Cand, ":keeps-prefix") || strings.Contains(o.Cand, ":own")) {
 				retried++
-				r := Race(Standalone(e.lines, o, false, ""), 3*time.Second, Solvers[1:2])
+				r := Race(Standalone(e.lines, o, false, ""), 2*time.Second, Solvers[1:2])
 				if os.Getenv("SLIPVC_CANDDUMP") != "" {
 					fmt.Fprintf(os.Stderr, "candidate retry r%d %s %s: was %s, %s says %s\n", round, o.Kind, o.Cand, o.Status, r.Solver, r.Status)
 				}
